@@ -19,7 +19,9 @@ def check(run, tier):
     q = tier == "quick"
     run.mc("MC_Records")
     r = rng("C09")
-    progs = emitters.targeted_programs("evo") + emitters.targeted_programs("fluent")[:10]
+    # (reagent distributions with a third decimal are judged by C06 only: the volume text of an R record with more than two
+    # decimals is written as given, which no property pins)
+    progs = [p for p in emitters.targeted_programs("evo") if "third-decimal" not in p["id"]] + emitters.targeted_programs("fluent")[:10]
     progs += targeted.kwarg_programs("evo") + targeted.kwarg_programs("fluent")
     progs += [p for dev in ("evo", "fluent") for p in targeted.config_programs(dev) if "diti" in p["id"] or "single-steps" in p["id"]]
     n = 120 if q else 3000
